@@ -588,6 +588,13 @@ def normalize(t):
         head = normalize(t[1])
         parts = tuple(((p[0],) + tuple(normalize(x) for x in p[1:]), o) for p, o in t[2])
         return ("path", head, parts)
+    if k == "def":
+        # `def a: ..; def b: ..; t` is one node with two definitions for the parser
+        defs = tuple((n, ps, normalize(b)) for n, ps, b in t[1])
+        body = normalize(t[2])
+        if body[0] == "def":
+            return ("def", defs + body[1], body[2])
+        return ("def", defs, body)
     return tuple(normalize(x) for x in t)
 
 
